@@ -598,10 +598,10 @@ def run_sorted_agree(prog, rep):
     rule = rep.rule('R-VALID-SORTED', 'the validator check isSorted and the tick setters (RangeDimension::ticks, DataArray::appendRangeDimension) decide sortedness with the same predicate: std::is_sorted over the whole range with the same comparator', floor=3)
     sites = []
     for f in sorted(prog.funcs.values(), key=lambda f: (f.file, f.line, f.q)):
-        if f.body is None or not f.q.startswith('nix::') or f.q.startswith('nix::hdf5::'):
+        if f.body is None or not (f.q.startswith('nix::valid::isSorted') or (f.cls or '') in ('nix::RangeDimension', 'nix::DataArray')):
             continue
         for c in f.calls():
-            if (c.callee or {}).get('name') in ('is_sorted', 'is_sorted_until', 'adjacent_find') and (c.callee.get('q') or '').startswith('std::'):
+            if (c.callee or {}).get('name') in ('is_sorted', 'is_sorted_until') and (c.callee.get('q') or '').startswith('std::'):
                 a = [x for x in real_args(c) if x is not None]
                 comp = None
                 if len(a) > 2:
